@@ -1,0 +1,107 @@
+//! Verification hooks (cargo feature `verif`, off by default).
+//!
+//! Purely additive: re-exports the crate's own wire codec so external checkers can read the
+//! packets the library produces, and defines canonical read-only snapshots of connection state.
+//! Nothing here changes the behaviour of the library.
+
+use std::ops::Range;
+use std::time::Duration;
+
+pub use crate::packet::{Packet, SerializationError, Slice, SLICE_SIZE};
+use crate::DisconnectReason;
+
+#[derive(Debug, Clone, PartialEq, Eq)]
+pub enum StatusSnapshot {
+    Connected,
+    Connecting,
+    Disconnected(DisconnectReason),
+}
+
+#[derive(Debug, Clone, PartialEq, Eq, Hash)]
+pub enum SentInfoSnapshot {
+    None,
+    ReliableMessages { channel_id: u8, message_ids: Vec<u64> },
+    ReliableSlice { channel_id: u8, message_id: u64, slice_index: usize },
+    Ack { largest_acked_packet: u64 },
+}
+
+#[derive(Debug, Clone, PartialEq, Eq, Hash)]
+pub struct SentPacketSnapshot {
+    pub sequence: u64,
+    pub sent_at: Duration,
+    pub info: SentInfoSnapshot,
+}
+
+#[derive(Debug, Clone, PartialEq, Eq, Hash)]
+pub struct UnackedSnapshot {
+    pub message_id: u64,
+    pub len: usize,
+    pub sliced: bool,
+    /// per slice (one entry for a small message, always false while it is unacked)
+    pub acked: Vec<bool>,
+    pub last_sent: Vec<Option<Duration>>,
+}
+
+#[derive(Debug, Clone, PartialEq, Eq, Hash)]
+pub struct SendReliableSnapshot {
+    pub channel_id: u8,
+    pub next_message_id: u64,
+    pub resend_time: Duration,
+    pub memory_usage_bytes: usize,
+    pub max_memory_usage_bytes: usize,
+    pub unacked: Vec<UnackedSnapshot>,
+}
+
+#[derive(Debug, Clone, PartialEq, Eq, Hash)]
+pub struct SendUnreliableSnapshot {
+    pub channel_id: u8,
+    pub sliced_message_id: u64,
+    pub memory_usage_bytes: usize,
+    pub max_memory_usage_bytes: usize,
+    pub queued_lens: Vec<usize>,
+}
+
+#[derive(Debug, Clone, PartialEq, Eq, Hash)]
+pub struct PartialSnapshot {
+    pub message_id: u64,
+    pub num_slices: usize,
+    pub received: Vec<bool>,
+    pub last_received: Option<Duration>,
+}
+
+#[derive(Debug, Clone, PartialEq, Eq, Hash)]
+pub struct ReceiveReliableSnapshot {
+    pub channel_id: u8,
+    pub ordered: bool,
+    pub oldest_pending_message_id: u64,
+    pub most_recent_message_id: u64,
+    pub received_ids: Vec<u64>,
+    pub memory_usage_bytes: usize,
+    pub max_memory_usage_bytes: usize,
+    /// (message id, length) of complete messages waiting for the application
+    pub buffered: Vec<(u64, usize)>,
+    pub partial: Vec<PartialSnapshot>,
+}
+
+#[derive(Debug, Clone, PartialEq, Eq, Hash)]
+pub struct ReceiveUnreliableSnapshot {
+    pub channel_id: u8,
+    pub memory_usage_bytes: usize,
+    pub max_memory_usage_bytes: usize,
+    pub queued_lens: Vec<usize>,
+    pub partial: Vec<PartialSnapshot>,
+}
+
+#[derive(Debug, Clone, PartialEq, Eq)]
+pub struct ConnectionSnapshot {
+    pub packet_sequence: u64,
+    pub current_time: Duration,
+    pub pending_acks: Vec<Range<u64>>,
+    pub sent_packets: Vec<SentPacketSnapshot>,
+    pub send_reliable: Vec<SendReliableSnapshot>,
+    pub send_unreliable: Vec<SendUnreliableSnapshot>,
+    pub receive_reliable: Vec<ReceiveReliableSnapshot>,
+    pub receive_unreliable: Vec<ReceiveUnreliableSnapshot>,
+    pub available_bytes_per_tick: u64,
+    pub status: StatusSnapshot,
+}
